@@ -229,7 +229,17 @@ def invariant_pairs(ctx):
     init = ctx.fn('RangeStatement::<P>::init', required=False)
     if init is not None:
         from .common import guard_table
-        names = {i + 1: init.local_name(i + 1) for i in range(init.argc)}
+        # parameter index -> the field of the constructed statement that stores that parameter (not the parameter's name)
+        names = {}
+        rt = ctx.eng.return_term(init)
+        for x in walk(rt):
+            if x.tag == 'adt' and x[1].endswith('RangeStatement::RangeStatement'):
+                for fname, ft in x[2]:
+                    y = ft
+                    while y.tag == 'mut':
+                        y = y[1]
+                    if y.tag == 'param' and y[1] == init.key:
+                        names[y[2]] = fname
         for row in guard_table(ctx, init):
             for a in row['atoms']:
                 if a[0] == 'cmp' and a[1] == 'Eq' and a[2].startswith('len(p') and a[3].startswith('len(p') and row['eff'] == 'dom':
